@@ -10,7 +10,7 @@ from vlib import renv
 
 PROPERTY = "C14"
 RULE = ("enumerated upgrade histories {USR2 then TERM old | QUIT old | TERM new | QUIT new | INT old | INT new | second USR2 while pending | "
-        "USR2 then TERM/QUIT old at once, before the new master has started | USR2, TERM old, USR2 on the promoted master, TERM first-new | USR2, TERM new, USR2 again | daemon mode: USR2, WINCH old, HUP old, TERM new | systemd socket activation (LISTEN_FDS): USR2, TERM old} x bind {tcp, unix; IPv6 literal and host name for three of the histories} x worker class "
+        "USR2 then TERM/QUIT old at once, before the new master has started | USR2, TERM old, USR2 on the promoted master, TERM first-new | USR2, TERM new, USR2 again | daemon mode: USR2, WINCH old, HUP old, TERM new | systemd socket activation (LISTEN_FDS): USR2, TERM old} x bind {tcp, unix; IPv6 literal and host name for four of the histories} x worker class "
         "{sync, gthread} with seeded sub-second jitter, on two (or three) real masters started from the working tree under a "
         "connect-loop client. Oracle: no connect is ever refused; after USR2 the configured pid file names the old master and '<pidfile>.2' "
         "the new one; once the old master is gone the configured name holds the new pid within 3 s and '.2' is absent; if the new one goes "
@@ -37,7 +37,7 @@ def extra_cases(tier, seed, shard, nshards):
                 cells.append({"history": h, "bind": bind, "kind": kind})
     # other listener types: an IPv6 literal and a host name (the inherited-socket path differs per socket class)
     for hi, (h, bind) in enumerate([("term-old", "tcp6"), ("upgrade-twice", "tcp6"), ("term-new", "tcp6"), ("term-old", "tcp-name"),
-                                    ("upgrade-twice", "tcp-name")]):
+                                    ("upgrade-twice", "tcp-name"), ("daemon-rollback", "tcp-name"), ("daemon-rollback", "tcp6")]):
         cells.append({"history": h, "bind": bind, "kind": ["sync", "gthread"][(hi + seed) % 2]})
     if tier == "thorough":
         cells = [dict(c, rep=r) for c in cells for r in range(2)]
@@ -140,7 +140,12 @@ def run_case(case):
             V("socket-file-kept", "unix-socket-file-removed-while-a-master-uses-it:" + label, None, "socket path exists")
 
     def kill_and_wait(pid, sig, is_child):
-        os.kill(pid, sig)
+        try:
+            os.kill(pid, sig)
+        except ProcessLookupError:
+            V("masters-alive", "master-gone-before-it-was-told-to-stop:%s" % ("old" if pid == srv.pid else "new"),
+              {"pid": pid, "masters": masters()}, "the master is still running at this point of the history")
+            return True
         if is_child:
             srv.wait_exit(10)
         return wait_for(lambda: not renv.alive(pid), 10)
